@@ -58,6 +58,9 @@ type World struct {
 	rets   map[retKey]ISet
 	rolesCache map[string]*ssa.Function
 	encCache   map[*ssa.Function]*encInfo
+	lenEncCache map[*ssa.Function]*lenEncInfo
+	chunkReadCache map[*ssa.Function][]chunkRead
+	chunkTruncCache map[*ssa.Function]bool
 	decCache   map[*ssa.Function]*decTab
 	wCache     map[*ssa.Function]*writerInfo
 	dispCache  map[string]*dispatch
